@@ -364,6 +364,38 @@ func c08Case(r *core.Run, idx int, rng *rand.Rand) {
 		}
 		c.Labels = append(c.Labels, "long_relaystate")
 	}
+	// identifiers as storages hand them out: counters, tokens with characters that mean something in a URL; the
+	// login URL is built by the application, which escapes the identifier itself
+	idShape := rng.Intn(4)
+	if idShape > 0 {
+		inner := mod
+		mod = func(e *env.Env) {
+			if inner != nil {
+				inner(e)
+			}
+			e.W.ReqTag = []string{"", "tenant-7/", "AbC+/dEf==", "id with blank "}[idShape]
+			e.W.LoginURL = func(id string) string {
+				return "https://login.idp.example/ui/login?authRequestID=" + url.QueryEscape(id)
+			}
+		}
+		c.Labels = append(c.Labels, fmt.Sprintf("id_shape_%d", idShape))
+	}
+	if kind == 0 && rng.Intn(3) == 0 {
+		// the record is written and no error is reported, but the request handed back carries no identifier
+		inner := mod
+		mod = func(e *env.Env) {
+			if inner != nil {
+				inner(e)
+			}
+			e.W.Plan = func(_, op string, _ int) string {
+				if op == "CreateAuthRequest" {
+					return sim.FaultNoIdentifier
+				}
+				return ""
+			}
+		}
+		c.Labels = append(c.Labels, "stored_without_identifier")
+	}
 	e, call := c.run(rng, mod)
 	out := judgeSSOOutcome(r, wl, idx, c.label(), e, call, c.describe())
 	if kind == 6 && call.Accepted() {
